@@ -88,14 +88,14 @@ Proof.
   - intros x Hx. eapply linv_names_exact; eauto.
 Qed.
 
-Theorem within_limits_reachable L h : 1 <= max_names_per_connection L -> within_limits L (fst (lrun L linit h)).
+Theorem within_limits_reachable L h : usable L -> within_limits L (fst (lrun L linit h)).
 Proof. intros H. apply linv_within. apply reachable_linv. exact H. Qed.
 
-Theorem counters_exact_reachable L h : 1 <= max_names_per_connection L -> counters_exact (fst (lrun L linit h)).
+Theorem counters_exact_reachable L h : usable L -> counters_exact (fst (lrun L linit h)).
 Proof. intros H. eapply linv_exact. apply reachable_linv. exact H. Qed.
 
 Theorem limits_never_exceeded_proved : limits_never_exceeded.
-Proof. intros L H h. apply within_limits_reachable. unfold all_at_least_one in H. tauto. Qed.
+Proof. intros L H h. apply within_limits_reachable. apply all_at_least_one_usable. exact H. Qed.
 
 (* ---- a refusal changes nothing ------------------------------------------------------------------------------------- *)
 Lemma is_refusal_conv o : is_refusal (conv o) = true -> snd o = MError ELimitsExceeded.
@@ -119,7 +119,7 @@ Proof.
   destruct (p_get p =? c); [exact IH|]. destruct (p_send p =? c); simpl; exact IH.
 Qed.
 
-Lemma state_eta s : mkState (s_conns s) (s_services s) (s_next s) (s_cdata s) (s_rules s) (s_pending s) (s_ncomplete s) (s_nincomplete s) (s_byuser s) = s.
+Lemma state_eta s : mkState (s_conns s) (s_services s) (s_next s) (s_cdata s) (s_rules s) (s_pending s) (s_ncomplete s) (s_nincomplete s) (s_byuser s) (s_watches s) = s.
 Proof. destruct s; reflexivity. Qed.
 
 Lemma with_reg_same L s : with_reg s (reg L s) = s.
@@ -163,7 +163,7 @@ Proof. destruct s; reflexivity. Qed.
 Theorem refusal_effect L s e : refusal (snd (lstep L s e)) = true -> fst (lstep L s e) = after_refusal s e.
 Proof.
   destruct e; cbn [lstep after_refusal].
-  - destruct (max_incomplete_connections L <=? s_nincomplete s); [reflexivity|]. simpl. discriminate.
+  - destruct (negb (s_watches s)); [reflexivity|]. destruct (max_incomplete_connections L <? s_nincomplete s + 1); simpl; discriminate.
   - destruct (find_cd (s_cdata s) c) as [d|]; [|reflexivity]. destruct (d_auth d); [reflexivity | simpl; discriminate].
   - destruct (find_conn (s_conns s) c) as [cn|] eqn:Hf; [|reflexivity].
     destruct (find_cd (s_cdata s) c) as [d|]; [|reflexivity].
@@ -200,7 +200,8 @@ Proof.
   - destruct (find_conn (s_conns s) c) as [cn|]; [|reflexivity].
     destruct (negb (c_active cn)); [rewrite disconnect_no_refusal; discriminate | reflexivity].
   - destruct (find_conn (s_conns s) c) as [cn|]; [|reflexivity].
-    destruct (too_long L hdr); [rewrite disconnect_no_refusal; discriminate | reflexivity].
+    destruct (find_cd (s_cdata s) c) as [d|]; [|reflexivity].
+    destruct (too_long_at (d_maxmsg d) hdr); [rewrite disconnect_no_refusal; discriminate | reflexivity].
 Qed.
 
 Theorem refusal_changes_nothing_partial L s e : plain e = true -> refusal (snd (lstep L s e)) = true -> fst (lstep L s e) = s.
